@@ -158,8 +158,35 @@ def export_tables():
     return '\n'.join(L)
 
 
+def export_text_tables():
+    """facts the text writer/parser derive from a mnemonic: the '.load'/'.store' substring test and
+    default_alignment (by calling it), the _log2 table, the block mnemonics"""
+    import ppci.wasm.opcodes as O
+    import ppci.wasm.text.util as U
+    L = ['(* GENERATED by tools/props/c21.py from ppci/wasm/text/util.py and opcodes.py — do not edit *)',
+         'From PV Require Import Lib.Py.', 'From Coq Require Import String.',
+         'Local Open Scope Z_scope.', 'Local Open Scope string_scope.', '']
+    rows = []
+    for op in O.OPCODES:
+        if '.load' in op or '.store' in op:
+            try:
+                a = U.default_alignment(op)
+                if not isinstance(a, int):
+                    raise TieBroken('default_alignment(%s) = %r' % (op, a))
+                rows.append('  (%s, Some %d)' % (coq_string(op), a))
+            except (KeyError, ValueError):
+                rows.append('  (%s, None)' % coq_string(op))
+    L.append('(* mnemonics containing ".load" or ".store": Some (default alignment, log2) / None = default_alignment raises *)')
+    L.append('Definition text_mem : list (string * option Z) := [\n%s].\n' % ';\n'.join(rows))
+    if not all(isinstance(k, int) and isinstance(v, int) for k, v in U._log2.items()):
+        raise TieBroken('unexpected _log2 table')
+    L.append('Definition log2_table : list (Z * Z) := [%s].\n' % '; '.join('(%d, %d)' % kv for kv in U._log2.items()))
+    return '\n'.join(L)
+
+
 def regen(ctx):
     try:
+        ctx.write_gen('Tab_wasm_text', export_text_tables())
         text = export_tables()
     except TieBroken:
         raise
@@ -1064,6 +1091,52 @@ def corr_malformed(ctx, n):
     return cases, recs
 
 
+def split_sections(b):
+    """[(start, end)] of the sections of a module's bytes (python-side, independent LEB reader)"""
+    out, i = [], 8
+    while i < len(b):
+        j, size, shift = i + 1, 0, 0
+        while True:
+            size |= (b[j] & 0x7F) << shift
+            shift += 7
+            j += 1
+            if not b[j - 1] & 0x80:
+                break
+        out.append((i, j + size))
+        i = j + size
+    return out
+
+
+def corr_canonical(ctx, recs, n):
+    """the decidable [canonical] predicate of Proofs/C21_canon.v vs the implementation's fixpoint
+    Module(b).to_bytes() == b: writer outputs, and two non-canonical variants of each (first section
+    size as a padded LEB128; first two sections swapped)"""
+    from ppci.wasm import Module
+    cases, crecs = [], []
+    for kind, v, hx in recs:
+        if kind != 'module' or len(cases) >= n:
+            continue
+        b = bytes.fromhex(hx)
+        variants = [b]
+        secs = split_sections(b)
+        if secs:
+            i = 9
+            while b[i] & 0x80:
+                i += 1
+            variants.append(b[:i] + bytes([b[i] | 0x80, 0]) + b[i + 1:])
+        if len(secs) >= 2 and b[secs[0][0]] != b[secs[1][0]]:
+            (a0, a1), (b0, b1) = secs[0], secs[1]
+            variants.append(b[:a0] + b[b0:b1] + b[a0:a1] + b[b1:])
+        for x in variants:
+            try:
+                fix = with_alarm(5, lambda: Module(x).to_bytes() == x)
+            except Exception:   # noqa: BLE001
+                fix = False
+            cases.append(('canonical 4000 (bytes_of_hex "%s")' % x.hex(), fix))
+            crecs.append(('canonical', x.hex(), fix))
+    return cases, crecs
+
+
 def regen_and_reader(ctx):
     text = regen(ctx)
     return 64 if 'datacount_reader : rmeth := RInt' in text else 2 ** 32
@@ -1099,7 +1172,8 @@ def text_validation(ctx, n):
     return res
 
 
-PROOFS = ['Proofs/C21_leb.vo', 'Proofs/C21_instr.vo', 'Proofs/C21_defs.vo', 'Proofs/C21_module.vo', 'Proofs/C21_spec.vo']
+PROOFS = ['Proofs/C21_leb.vo', 'Proofs/C21_instr.vo', 'Proofs/C21_defs.vo', 'Proofs/C21_module.vo', 'Proofs/C21_spec.vo',
+          'Proofs/C21_canon.vo']
 
 
 def run(ctx):
@@ -1132,15 +1206,16 @@ def run(ctx):
     ctx.cov['exhaustive'] = False
 
 
-def run_cases_retry(ctx, name, cases, shard):
+def run_cases_retry(ctx, name, cases, shard, imports=None):
+    imports = imports or IMPORTS
     """ctx.run_cases; when coqc itself failed (e.g. another builder recompiled a shared Lib/*.vo in
     between: 'inconsistent assumptions'), rebuild our .vo files and try once more"""
-    bad = ctx.run_cases(name, IMPORTS, cases, shard=shard)
+    bad = ctx.run_cases(name, imports, cases, shard=shard)
     if bad is None:
         ctx.failed_stages[:] = [s for s in ctx.failed_stages if s[0] != 'cases_' + name]
         ctx.cov['evaluations'] -= len(cases)
-        ctx.build(['Model/WasmBinVal.vo'])
-        bad = ctx.run_cases(name, IMPORTS, cases, shard=shard)
+        ctx.build(['Model/WasmBinVal.vo'] + PROOFS)
+        bad = ctx.run_cases(name, imports, cases, shard=shard)
     return bad
 
 
@@ -1152,8 +1227,12 @@ def correspondence(ctx, quick, dmax):
         ctx.cov['stages']['correspondence_distribution'] = dict(stats, instruction_cases=len(c2), malformed_streams=len(c3))
         for r in (r1[:3] + r2[5:8] + r3[:2]):
             ctx.note_sample({'kind': r[0], 'value': repr(r[1])[:300]})
-        for name, cases, recs, shard in (('modules', c1, r1, 20), ('instrs', c2, r2, 120), ('malformed', c3, r3, 60)):
-            bad = run_cases_retry(ctx, name, cases, shard)
+        c4, r4 = corr_canonical(ctx, r1, 120 if quick else 900)
+        ctx.cov['stages']['correspondence_distribution']['canonical_predicate_cases'] = len(c4)
+        ctx.cov['stages']['correspondence_distribution']['canonical_true'] = sum(1 for r in r4 if r[2])
+        for name, cases, recs, shard in (('modules', c1, r1, 20), ('instrs', c2, r2, 120), ('malformed', c3, r3, 60),
+                                         ('canon', c4, r4, 30)):
+            bad = run_cases_retry(ctx, name, cases, shard, IMPORTS + ['Proofs.C21_canon'] if name == 'canon' else IMPORTS)
             if bad:
                 for i in bad[:5]:
                     ctx.log('model/implementation disagree on', name, repr(recs[i])[:600])
@@ -1580,3 +1659,100 @@ def symbolic_text_validation(ctx, n):
     ctx.cov['stages']['text_symbolic_validation'] = res
     ctx.cov['evaluations'] += n
     return res
+
+
+# ---------------------------------------------------------------- text form, instruction level: model vs implementation
+TEXT_IMPORTS = ['Model.WasmTypes', 'Model.WasmBin', 'Model.WasmBinVal', 'Model.WasmText']
+
+
+def real_tokens(text):
+    """token values of the implementation's S-expression lexer (floats by their repr)"""
+    from ppci.lang.sexpr import tokenize_sexpr
+    out = []
+    for t in tokenize_sexpr(text):
+        if t.typ == 'EOF':
+            break
+        v = t.val
+        out.append(repr(v) if isinstance(v, float) else v)
+    return out
+
+
+def gen_text_instr_list(rng, n):
+    """instruction lists for the instruction-level text model: the text-friendly body generator plus
+    operand classes the module-level text validation avoids (table/ref/sat ops, U8 operands, typed select,
+    call_indirect on table 1, large br_table that the writer folds)"""
+    from ppci.wasm.components import Instruction, Ref
+    body = gen_text_body(rng, n, 0, 4, 3, 2, 2)
+    r = rng.random()
+    extra = []
+    if r < 0.12:
+        extra = [Instruction('br_table', [Ref('label', index=rng.randrange(0, 3)) for _ in range(rng.randrange(36, 60))])]
+    elif r < 0.22:
+        extra = [Instruction('select', [rng.choice(VALTYPES) for _ in range(rng.choice([0, 1, 2]))])]
+    elif r < 0.30:
+        extra = [Instruction(rng.choice(['table.get', 'table.set', 'table.grow', 'table.size', 'table.fill']),
+                             Ref('table', index=rng.randrange(0, 3)))]
+    elif r < 0.36:
+        extra = [Instruction('table.copy', Ref('table', index=rng.randrange(3)), Ref('table', index=rng.randrange(3)))]
+    elif r < 0.42:
+        extra = [Instruction('ref.func', Ref('func', index=rng.randrange(5)))]
+    elif r < 0.50:
+        extra = [Instruction(rng.choice(['memory.fill', 'memory.copy', 'i8x16.extract_lane_s', 'i32x4.replace_lane']), *([0] * 1))]
+        if extra[0].opcode == 'memory.copy':
+            extra = [Instruction('memory.copy', 0, 0)]
+    elif r < 0.56:
+        extra = [Instruction('call_indirect', Ref('type', index=rng.randrange(3)), Ref('table', index=rng.choice([1, 2])))]
+    elif r < 0.64:
+        extra = [Instruction('f64.const', gen_f64(rng)), Instruction('f32.const', gen_f32(rng))]
+    k = rng.randrange(0, len(body) + 1)
+    return body[:k] + extra + body[k:]
+
+
+def corr_text(ctx, n):
+    import math
+    from ppci.wasm import Module, components as C
+    from ppci.wasm.components import Ref, Instruction
+    import ppci.wasm.opcodes as O
+    cases, recs = [], []
+    stats = {'bodies': 0, 'instructions': 0, 'reparse_ok': 0, 'reparse_fails': 0, 'print_fails': 0}
+    for _ in range(n):
+        ins = gen_text_instr_list(ctx.rng, ctx.rng.choice([1, 2, 4, 8]))
+        t32, t64 = {}, {}
+        for i in ins:
+            for k, a in zip(O.OPERANDS.get(i.opcode, ()), i.args):
+                if isinstance(a, float):
+                    kn = k.name
+                    raw = float_raw(kn, a)
+                    x = struct.unpack('<f' if kn == 'F32' else '<d', raw)[0]
+                    (t32 if kn == 'F32' else t64)[raw] = repr(x)
+        fs = 'table_fspell [%s] [%s]' % ('; '.join('(%s, "%s"%%string)' % (zl(r), s) for r, s in t32.items()),
+                                         '; '.join('(%s, "%s"%%string)' % (zl(r), s) for r, s in t64.items()))
+        term, val = expr_repr(ins)
+        # implementation: text of every instruction, re-parsed inside a function
+        try:
+            texts = [i.to_string() for i in ins]
+            toks = [t for s in texts for t in real_tokens(s)]
+            out_print = OkV(toks)
+        except Exception:   # noqa: BLE001
+            out_print = Internal
+        stats['bodies'] += 1
+        stats['instructions'] += len(ins)
+        cases.append(('text_print_val (%s) %s' % (fs, term), out_print))
+        recs.append(('text-print', val, None))
+        if out_print is Internal:
+            stats['print_fails'] += 1
+            continue
+        # a nan repr is ambiguous as a table key: skip the re-parse comparison for nan payloads (known finding)
+        if any(s == 'nan' for s in list(t32.values()) + list(t64.values())):
+            continue
+        text = '(module (type (func)) (func (type 0) %s))' % ' '.join(texts)
+        try:
+            back = with_alarm(5, lambda: [d for d in Module(text).definitions if isinstance(d, C.Func)][0].instructions)
+            out_parse = OkV(expr_repr(back)[1])
+            stats['reparse_ok'] += 1
+        except Exception:   # noqa: BLE001
+            out_parse = Internal
+            stats['reparse_fails'] += 1
+        cases.append(('text_parse_val (%s) %s' % (fs, term), out_parse))
+        recs.append(('text-parse', val, None))
+    return cases, recs, stats
